@@ -10,6 +10,9 @@ CLAIMED = {
  "C18": ("tables", "constant-table extraction + exhaustive oracle comparison; role-based AST dataflow (go/ast + go/types)", "DESIGN.md 4/C18",
          "Exhaustive static decision of the finite tables (256 byte values for complement/transcribe, all 16 IUPAC query letters for Match) against an IUPAC oracle in the checker, plus structural rules LOOKUP/WIRE/LITERAL/FOLD on the resolved program. Decides the table and wiring clauses of the property, not regexp or suffix-array semantics.",
          "Trusts bytes.IndexByte/ToLower, regexp, index/suffixarray, sort as documented; the translation helper is checked by roles (LOOKUP)."),
+ "C13": ("integrity", "must-check / must-pass-through / ordering rules: typestate along go/cfg paths, error-handling idiom matching, sibling cross-check of Open vs CreateLevel, constant-factor agreement", "DESIGN.md 4/C13",
+         "Static decision that cache.Open can return a nil error only after the header was read in full (INT-4), the body digest covers every byte after the header (INT-3), all three digests were compared with the right operands and no error dropped (INT-1/2), the file name binds both key digests identically in reader and writer (INT-5), the writer finalises the header last with a consistent layout (INT-6), failed finalisation removes the entry (INT-8) and replay happens only after a valid open (REPLAY). Decides the structural necessary conditions, not the byte-level enumeration of corruptions.",
+         "Trusts sha1 collision resistance, compress/flate's round trip, bytes.Equal/io.Copy/os.File semantics and the file system; field and method names of cmd/cache are anchors."),
  "C14": ("cachekey", "flag-to-payload dependence analysis (position-ordered taint over go/ast+go/types), typestate along go/cfg paths, error-handling idiom matching", "DESIGN.md 4/C14",
          "Static decision of the structural clauses of cache transparency over all 19 cached commands (which have no tests): every option read by a command is in the cache key (KEY-1..4), digest discipline and rewind in TryCache (KEY-5), replay only after a valid open (REPLAY), the tee writes the same bytes to cache and output (TEE), and a failed run cannot commit an entry (COMMIT). Does not decide byte equality of runs.",
          "Trusts encoding/json to encode distinct option values distinctly, hash.Hash.Write never failing, and go/cfg's model of control flow; commands are recognised as the functions of cmd/gts that call (*ioDelegate).TryCache."),
